@@ -888,6 +888,7 @@ fn main() {
             let src = match i % 6 {
                 2 | 5 => listgen::ListGen::new(&mut r).program_shapes(),
                 3 => listgen::ListGen::new(&mut r).program_partials(),
+                4 => listgen::ListGen::new(&mut r).program_generics(),
                 _ => listgen::ListGen::new(&mut r).program(),
             };
             let p = match from_real::convert_source(&src) {
@@ -909,6 +910,9 @@ fn main() {
                     ev.hit("rectypes.agree");
                     if src.starts_with("'s = ") {
                         ev.hit("rectypes.family-shapes");
+                    }
+                    if src.starts_with("'list<'t> = ") {
+                        ev.hit("rectypes.family-generics");
                     }
                     if src.starts_with("'hx = ") {
                         ev.hit("rectypes.family-partial-parameters");
